@@ -39,8 +39,17 @@ func RunCheck(id, tier string, seed int) int {
 
 const RepoMod = "github.com/goccmack/gocc"
 
+// RepoRoot is the tree under test: /repo, unless GV_REPO names a scratch copy (used only to try
+// seeded changes without touching /repo while other checks are running).
+var RepoRoot = func() string {
+	if r := os.Getenv("GV_REPO"); r != "" {
+		return r
+	}
+	return "/repo"
+}()
+
 func repoTarget(rel, name string, harness ...string) *Target {
-	t := &Target{ModDir: "/repo", PkgDir: "/repo/" + rel, PkgPath: RepoMod + "/" + rel, PkgName: name}
+	t := &Target{ModDir: RepoRoot, PkgDir: RepoRoot + "/" + rel, PkgPath: RepoMod + "/" + rel, PkgName: name}
 	for _, h := range harness {
 		t.Harness = append(t.Harness, VerifRoot+"/harness/"+h)
 	}
